@@ -127,7 +127,7 @@ func c13Gen(c *core.Ctx) func(yield func(c13Case) bool) {
 		// every shape of error value a failing runner may return (causer without cause, empty message, ...)
 		for shape := 1; shape < scen.NumErrShapes; shape++ {
 			stop := false
-			seqs(2, 11, func(s []int) bool {
+			seqs(2, 12, func(s []int) bool {
 				for f := 0; f < len(s); f++ {
 					for _, m := range []int{0, 1<<len(s) - 1} {
 						if !yield(c13Case{Seq: s, LazyMask: m, Fail: f, ErrShape: shape}) {
@@ -144,7 +144,7 @@ func c13Gen(c *core.Ctx) func(yield func(c13Case) bool) {
 		}
 		{
 			stop := false
-			seqs(2, 11, func(s []int) bool {
+			seqs(2, 12, func(s []int) bool {
 				for f := -1; f < len(s); f++ {
 					for _, d := range []bool{false, true} {
 						if !yield(c13Case{Seq: s, Fail: f, Background: 3, Desc: d}) {
@@ -161,7 +161,7 @@ func c13Gen(c *core.Ctx) func(yield func(c13Case) bool) {
 		}
 		{
 			stop := false
-			seqs(3, 11, func(s []int) bool {
+			seqs(3, 12, func(s []int) bool {
 				for _, x := range s {
 					if c12Class(x) == 2 {
 						return true // unordered runners have no Order to compute
@@ -187,7 +187,7 @@ func c13Gen(c *core.Ctx) func(yield func(c13Case) bool) {
 		}
 		for dep := 1; dep <= 2; dep++ {
 			stop := false
-			seqs(2, 11, func(s []int) bool {
+			seqs(2, 12, func(s []int) bool {
 				for _, d := range []bool{false, true} {
 					if !yield(c13Case{Seq: s, Fail: -1, Desc: d, AppDep: dep}) {
 						stop = true
@@ -204,7 +204,7 @@ func c13Gen(c *core.Ctx) func(yield func(c13Case) bool) {
 		if c.Thorough() {
 			maxLen = 4
 		}
-		seqs(maxLen, 11, func(s []int) bool {
+		seqs(maxLen, 12, func(s []int) bool {
 			n := len(s)
 			masks := []int{0, 1<<n - 1}
 			if n == 4 {
@@ -283,6 +283,8 @@ func c13Run(c *core.Ctx) {
 					out = append(out, &scen.RunOZ{RunO: scen.RunO{Part: part}})
 				case c12Class(s) == 1:
 					out = append(out, &scen.RunO{Part: part})
+				case s == c12Marker:
+					out = append(out, &scen.RunM{Part: part})
 				case lazy:
 					out = append(out, &scen.RunNZ{RunN: scen.RunN{Part: part}})
 				default:
